@@ -88,14 +88,16 @@ impl FileStack {
         let mut location = self.current_location.clone().expect("parsing file");
         location.push(include.path.clone());
         match fs::canonicalize(&location) {
-            Ok(path) => {
+            // Only a file can be included: anything else is looked up in the libraries and
+            // ends in the include error located at the statement.
+            Ok(path) if path.is_file() => {
                 if !self.black_paths.contains(&path) {
                     debug!("adding local or absolute include `{}`", location.display());
                     self.stack.push(path);
                 }
                 Ok(())
             }
-            Err(_) => self.include_library(include),
+            _ => self.include_library(include),
         }
     }
 
@@ -112,10 +114,13 @@ impl FileStack {
 
                 let libpath = lib.path.join(&include.path);
                 debug!("searching for `{}` in `{}`", include.path, lib.path.display());
-                if let Ok(path) = fs::canonicalize(&libpath) {
-                    debug!("adding include `{}` from directory", libpath.display());
-                    self.stack.push(path);
-                    return Ok(());
+                match fs::canonicalize(&libpath) {
+                    Ok(path) if path.is_file() => {
+                        debug!("adding include `{}` from directory", libpath.display());
+                        self.stack.push(path);
+                        return Ok(());
+                    }
+                    _ => {}
                 }
             } else {
                 // only match include paths with a single component i.e. lib.circom and not dir/lib.circom or
